@@ -1,11 +1,12 @@
 // ---- prelude/model_string.rs: byte-string model of StaticString<CAPACITY> (the `String` trait of iceoryx2-bb-container) ----
 // The contracts below are the reference (std-like) semantics of the String trait operations; they are cross-checked on the
 // real MaybeUninit code by engine K unit `string` (bounded capacity).  TRUSTED in engine V units (external_body).
+//@include prelude/string_contracts.rs
 pub enum StringModificationError { InsertWouldExceedCapacity, InvalidCharacter }
 pub open spec fn is_prefix(p: Seq<u8>, s: Seq<u8>) -> bool { p.len() <= s.len() && s.subrange(0, p.len() as int) == p }
 pub open spec fn is_suffix(p: Seq<u8>, s: Seq<u8>) -> bool { p.len() <= s.len() && s.subrange(s.len() - p.len(), s.len() as int) == p }
 pub open spec fn occurs_at(p: Seq<u8>, s: Seq<u8>, i: int) -> bool { 0 <= i && i + p.len() <= s.len() && s.subrange(i, i + p.len()) == p }
-pub open spec fn unsupported_byte(b: u8) -> bool { b >= 128 || b == 0 }
+pub open spec fn unsupported_byte(b: u8) -> bool { sc_unsupported_byte(b) }
 
 #[derive(Clone, Copy)]
 pub struct StaticString { pub bytes: Ghost<Seq<u8>>, pub cap: Ghost<nat> }
@@ -15,32 +16,26 @@ impl StaticString {
         requires idx <= old(self).bytes@.len()      // the real code fatal_panic!s otherwise
         ensures final(self).cap == old(self).cap,
             match r {
-                Ok(()) => old(self).bytes@.len() + bytes@.len() <= old(self).cap@
-                    && (forall|i: int| 0 <= i < bytes@.len() ==> !unsupported_byte(#[trigger] bytes@[i]))
-                    && final(self).bytes@ == old(self).bytes@.subrange(0, idx as int) + bytes@ + old(self).bytes@.subrange(idx as int, old(self).bytes@.len() as int),
-                Err(StringModificationError::InsertWouldExceedCapacity) => final(self).bytes == old(self).bytes && old(self).bytes@.len() + bytes@.len() > old(self).cap@,
-                Err(StringModificationError::InvalidCharacter) => final(self).bytes == old(self).bytes
-                    && exists|i: int| 0 <= i < bytes@.len() && unsupported_byte(#[trigger] bytes@[i]),
+                Ok(()) => sc_insert_bytes_ok(old(self).bytes@, old(self).cap@ as int, idx as int, bytes@, final(self).bytes@),
+                Err(StringModificationError::InsertWouldExceedCapacity) => final(self).bytes == old(self).bytes && sc_insert_bytes_exceeds(old(self).bytes@, old(self).cap@ as int, bytes@),
+                Err(StringModificationError::InvalidCharacter) => final(self).bytes == old(self).bytes && sc_insert_bytes_invalid(bytes@),
             }
     { unimplemented!() }
     #[verifier::external_body]
     pub fn insert_bytes_unchecked(&mut self, idx: usize, bytes: &[u8])
         requires idx <= old(self).bytes@.len(), old(self).bytes@.len() + bytes@.len() <= old(self).cap@
-        ensures final(self).cap == old(self).cap,
-            final(self).bytes@ == old(self).bytes@.subrange(0, idx as int) + bytes@ + old(self).bytes@.subrange(idx as int, old(self).bytes@.len() as int),
+        ensures final(self).cap == old(self).cap, final(self).bytes@ =~= sc_inserted(old(self).bytes@, idx as int, bytes@),
     { unimplemented!() }
     #[verifier::external_body]
     pub fn remove_range(&mut self, idx: usize, len: usize) -> (r: bool)
         requires idx + len <= usize::MAX
-        ensures final(self).cap == old(self).cap, r == (idx + len <= old(self).bytes@.len()),
-            r ==> final(self).bytes@ == old(self).bytes@.subrange(0, idx as int) + old(self).bytes@.subrange(idx as int + len as int, old(self).bytes@.len() as int),
+        ensures final(self).cap == old(self).cap, sc_remove_range(old(self).bytes@, idx as int, len as int, final(self).bytes@, r),
             !r ==> final(self).bytes == old(self).bytes,
     { unimplemented!() }
     #[verifier::external_body]
     pub fn remove(&mut self, idx: usize) -> (r: Option<u8>)
-        ensures final(self).cap == old(self).cap,
-            idx < old(self).bytes@.len() ==> r == Some(old(self).bytes@[idx as int]) && final(self).bytes@ == old(self).bytes@.remove(idx as int),
-            idx >= old(self).bytes@.len() ==> final(self).bytes == old(self).bytes && r is None,
+        ensures final(self).cap == old(self).cap, sc_remove(old(self).bytes@, idx as int, final(self).bytes@, r),
+            idx >= old(self).bytes@.len() ==> final(self).bytes == old(self).bytes,
     { unimplemented!() }
     #[verifier::external_body]
     pub fn strip_prefix(&mut self, bytes: &[u8]) -> (r: bool)
@@ -56,8 +51,7 @@ impl StaticString {
     { unimplemented!() }
     #[verifier::external_body]
     pub fn truncate(&mut self, new_len: usize)
-        ensures final(self).cap == old(self).cap,
-            new_len <= old(self).bytes@.len() ==> final(self).bytes@ == old(self).bytes@.subrange(0, new_len as int),
+        ensures final(self).cap == old(self).cap, sc_truncate(old(self).bytes@, new_len as int, final(self).bytes@),
             new_len > old(self).bytes@.len() ==> final(self).bytes == old(self).bytes,
     { unimplemented!() }
     #[verifier::external_body]
